@@ -123,6 +123,14 @@ def h_volume(ctx, d, N, F, nconfig, centred):
                     for a in range(d):
                         ctx.oblige(f"box[{f}] built from this frame's lengths [{a}]", O.eq(bx[1][a], Ls[f][a]))
             stub.calls.clear()
+        else:
+            for f in range(F):
+                bx = boxes[f] if f < len(boxes) else None
+                okb = bx is not None and hasattr(bx, "Lx")
+                ctx.oblige(f"box[{f}] is a box object of the library", okb)
+                if okb:
+                    for a, nm in enumerate(("Lx", "Ly", "Lz")[:d]):
+                        ctx.oblige(f"box[{f}] built from this frame's lengths [{a}]", O.eq(float(getattr(bx, nm)), float(Ls[f][a]), atol=1e-6))
         m = fn.VolumeMatrix(S, ndim=d, nconfig=nconfig, deltar=dr, transform_matrix=False, outputfile="")
     finally:
         if sym:
